@@ -401,6 +401,11 @@ def every_coin(ctx):
             for k in range(len(walk_ops) + 1):
                 for op in trial:
                     ctx.run("bip44_seq", [hid, name, walk_ops[:k] + [op]], "walk+1")
+            # import-depth sweep: every import route with every claimed depth 0..7 (cheap: no derivation), all coins
+            for d in range(8):
+                for op in ([RRAW, 1, 1, d, 0], [RRAW, 0, 1, d, 0], [REXT, 1, 1, d, 0], [REXT, 0, 1, d, 0]):
+                    if op not in trial:
+                        ctx.run("bip44_seq", [hid, name, [op]], "import-depth")
             # default path, then one more level operation (must fail unless the path is short)
             for op in ([ACCOUNT, 0], [CHANGE, 0], [ADDR, 0], [DEFPATH]):
                 ctx.run("bip44_seq", [hid, name, [[DEFPATH], op]], "defpath+1")
